@@ -2,6 +2,7 @@ package main
 
 import (
 	"fmt"
+	"hash/fnv"
 	"os"
 	"go/types"
 	"runtime/debug"
@@ -54,6 +55,7 @@ type Job struct {
 	WitEvery  int      // sample every k-th completed path as a witness
 	MaxPerKey int
 	Stub      func(x *Exec, name string, args []Val) (Val, bool)
+	Solver    string // "" = default (z3); "cvc5" for floating-point heavy jobs
 
 	idx         int
 	witCounter  int64
@@ -89,6 +91,9 @@ func (j *Job) describe() string {
 	sort.Strings(ks)
 	parts := []string{j.Entry}
 	for _, k := range ks {
+		if strings.HasPrefix(k, "__") {
+			continue
+		}
 		parts = append(parts, k+"="+j.Params[k])
 	}
 	return strings.Join(parts, " ")
@@ -270,12 +275,14 @@ func (s *Sched) run(n int) {
 			defer wg.Done()
 			x := s.newWorker(w)
 			defer func() {
-				atomic.AddInt64(&s.totalQueries, int64(x.sol.queries))
-				atomic.AddInt64(&s.solverTime, int64(x.sol.dur))
-				s.mu.Lock()
-				s.solverErrors = append(s.solverErrors, x.sol.errors...)
-				s.mu.Unlock()
-				x.sol.close()
+				for _, sol := range x.sols {
+					atomic.AddInt64(&s.totalQueries, int64(sol.queries))
+					atomic.AddInt64(&s.solverTime, int64(sol.dur))
+					s.mu.Lock()
+					s.solverErrors = append(s.solverErrors, sol.errors...)
+					s.mu.Unlock()
+					sol.close()
+				}
 			}()
 			for {
 				it, ok := s.pop()
@@ -291,8 +298,10 @@ func (s *Sched) run(n int) {
 }
 
 func (s *Sched) newWorker(w int) *Exec {
-	x := &Exec{P: s.P, sched: s, globals: map[*ssa.Global]*Cell{}, tables: map[string]string{}}
+	x := &Exec{P: s.P, sched: s, fnNames: map[*ssa.Function]string{}, globals: map[*ssa.Global]*Cell{}, tables: map[string]string{}}
 	x.sol = newSolver(s.solver, s.timeout, "")
+	x.sols = map[string]*Solver{s.solver: x.sol}
+	x.defaultSolver = s.solver
 	if lf := os.Getenv("SYMGO_LOG"); lf != "" && w == 0 {
 		x.sol.log, _ = os.Create(lf)
 	}
@@ -340,8 +349,13 @@ func (x *Exec) initWorker() {
 			x.call(p.Func("init"), nil, nil)
 		}
 	}
-	// constant tables -> uninterpreted functions at solver level 0
-	nt := 0
+	x.declTables(x.sol)
+	x.snapshotHeap()
+}
+
+// declTables: constant tables -> uninterpreted functions at solver level 0
+func (x *Exec) declTables(sol *Solver) {
+	declared := map[string]bool{}
 	for _, c := range x.globals {
 		a, ok := c.V.(Array)
 		if !ok || len(a.E) < 64 {
@@ -359,15 +373,20 @@ func (x *Exec) initWorker() {
 			continue
 		}
 		e0 := a.E[0].(Int)
-		name := fmt.Sprintf("tbl%d", nt)
-		nt++
-		x.sol.send(fmt.Sprintf("(declare-fun %s ((_ BitVec 64)) (_ BitVec %d))\n", name, e0.W))
-		for i, e := range a.E {
-			x.sol.send(fmt.Sprintf("(assert (= (%s %s) %s))\n", name, bvc(64, uint64(i)), bvc(e0.W, e.(Int).uval())))
+		sig := fmt.Sprintf("%d:", e0.W) + tableSig(a)
+		h := fnv.New64a()
+		h.Write([]byte(sig))
+		name := fmt.Sprintf("tbl_%x", h.Sum64())
+		if declared[name] {
+			continue
 		}
-		x.tables[tableSig(a)] = name
+		declared[name] = true
+		sol.send(fmt.Sprintf("(declare-fun %s ((_ BitVec 64)) (_ BitVec %d))\n", name, e0.W))
+		for i, e := range a.E {
+			sol.send(fmt.Sprintf("(assert (= (%s %s) %s))\n", name, bvc(64, uint64(i)), bvc(e0.W, e.(Int).uval())))
+		}
+		x.tables[sig] = name
 	}
-	x.snapshotHeap()
 }
 
 // snapshotHeap records every cell and map reachable from the globals so that
@@ -440,14 +459,23 @@ func (x *Exec) resetPath() {
 	x.notEq = map[string]map[uint64]bool{}
 	x.roots, x.tape, x.notes, x.abstract = nil, nil, nil, nil
 	x.steps, x.depth, x.epoch, x.monitor, x.catching = 0, 0, 1, false, 0
-	x.curFn, x.curPos = nil, ""
-	x.funcs = map[string]bool{}
+	x.curFn, x.curIn = nil, nil
+	x.funcs = map[*ssa.Function]bool{}
 }
 
 // runPath executes one path (decision prefix) of a job.
 func (x *Exec) runPath(job *Job, prefix []bool) {
 	x.job = job
 	x.prefix = prefix
+	want := job.Solver
+	if want == "" {
+		want = x.defaultSolver
+	}
+	if x.sols[want] == nil {
+		x.sols[want] = newSolver(want, x.sched.timeout*3, "")
+		x.declTables(x.sols[want])
+	}
+	x.sol = x.sols[want]
 	x.resetPath()
 	x.restoreHeap()
 	entry := x.P.entryFunc(job.Entry)
@@ -472,7 +500,7 @@ func (x *Exec) runPath(job *Job, prefix []bool) {
 					end = "explicit-panic"
 				default:
 					end = "engine-error"
-					job.noteUnsupported(fmt.Sprintf("engine error: %v at %s\n%s", r, x.curPos, shortStack()))
+					job.noteUnsupported(fmt.Sprintf("engine error: %v at %s\n%s", r, x.where(), shortStack()))
 				}
 			}
 		}()
@@ -510,8 +538,10 @@ func (x *Exec) runPath(job *Job, prefix []bool) {
 	atomic.AddInt64(&job.steps, int64(x.steps))
 	job.mu.Lock()
 	job.ends[end]++
-	for f := range x.funcs {
-		job.funcs[f] = true
+	for f, sut := range x.funcs {
+		if sut {
+			job.funcs[shortFn(f)] = true
+		}
 	}
 	job.mu.Unlock()
 }
